@@ -282,7 +282,7 @@ Qed.
 (* the acceptor accepts a small hand-written trace (push of tag 100 by actor 1 on an empty list; pop by actor 2) *)
 Example C19_ex_acceptor :
   (match accept_all a_init
-     [[1; 1; 0; 100]; [20; 1; 1; 4096]; [22; 1; 3; 0]; [21; 1; 2; 8192]; [2; 1; 1; 8192];
+     [[1; 1; 0; 100]; [20; 1; 1; 4096]; [34; 1; 4; 4096]; [22; 1; 3; 0]; [21; 1; 2; 8192]; [2; 1; 1; 8192];
       [3; 2; 0; 0]; [29; 2; 1; 8192]; [30; 2; 2; 8192]; [31; 2; 3; 8192]; [4; 2; 1; 100]]%Z
    with Some a => a_final a | None => false end) = true.
 Proof. vm_compute. reflexivity. Qed.
